@@ -426,6 +426,16 @@ def _r5_mapping_coords(ctx):
         raise AnalysisError("Meshmapper.process: griddata call not found")
     src, tgt = inline_single_defs(f.node, gd[0].args[0]), inline_single_defs(f.node, gd[0].args[2])
     if not (isinstance(src, ast.Subscript) and isinstance(tgt, ast.Subscript)):
+        # two frames addressed through their OWN accessors (`from_df.plain_mesh.coordinates`, `self.coordinates`): each frame then
+        # contributes its coordinates in its own column order - nothing ties the axes of the source to those of the target
+        own = [e for e in (src, tgt) if isinstance(e, ast.Attribute) and e.attr in ("coordinates", "values") or
+               (isinstance(e, ast.Call) and isinstance(e.func, ast.Attribute) and e.func.attr in ("to_numpy", "coordinates"))]
+        if len(own) == 2 or (own and not (isinstance(src, ast.Subscript) or isinstance(tgt, ast.Subscript))):
+            ctx.violated(f, gd[0], "Meshmapper.process hands griddata the source points as %s and the target points as %s: each frame's own "
+                         "coordinate columns in its own order; source and target have to be selected with ONE list of coordinate keys, "
+                         "otherwise the axes of two frames whose x / y / z columns are stored in different orders are swapped silently"
+                         % (norm_text(src)[:50], norm_text(tgt)[:50]), text="source and target points not selected with one key list")
+            return
         raise AnalysisError("Meshmapper.process: source / target points are not column selections")
     ks, kt = src.slice, tgt.slice
 
